@@ -8,7 +8,9 @@ RefNodes(d)  == Reachable(d) \cup CmdNodes(d)
 RefEdges(d)  == UNION {{LET e == KeyedEdges(d, t)[i] IN
                           [src |-> t, dst |-> e.dst, key |-> e.key, ref |-> e.ti, when |-> e.when] :
                         i \in 1..Len(KeyedEdges(d, t))} : t \in Reachable(d)}
-RefBarrier(d, t) == IF t \in TaskNames(d) /\ d.tasks[t].join # 0 THEN d.tasks[t].join ELSE 0
+(* -9: no barrier attribute; -1: "*"; 0: a declared join: 0; n *)
+RefBarrier(d, t) == IF t \in TaskNames(d) /\ d.tasks[t].join # 0
+                    THEN (IF d.tasks[t].join = -2 THEN 0 ELSE d.tasks[t].join) ELSE -9
 RefRetry(d, t) ==                     \* [on, count, when, delay]; a retry command overrides the retry spec
   IF t \notin TaskNames(d) THEN [on |-> FALSE, count |-> 0, when |-> [k |-> "default", v |-> "", n |-> 0], delay |-> -1]
   ELSE IF RetryCmd(d, t)
